@@ -14,9 +14,10 @@ ENUM_DEF = {1: "one", 2: ("two", "name_warn"), 30: "thirty", 400: ("four hundred
 ENUM_MAX_VAL_LEN = 3
 TITLES_POOL = {
     'a': ["a", "Alpha", "Title\nA\nx", ["A1", 22]],
-    'b': ["b", "B|col", "long title of b", "two\nlines"],
+    # (a title may read like the NAME of another field)
+    'b': ["b", "B|col", "long title of b", "two\nlines", "a"],
     'st': ["st", "status"],
-    'd': ["d", "D\n\nd3"],
+    'd': ["d", "D\n\nd3", "st"],
 }
 
 
